@@ -358,26 +358,40 @@ func (r *realRepo) test(labels []string, flags string) (bran, tran []string, rep
 		args = append(args, "--num_runs", "2")
 	}
 	args = append(args, labels...)
-	cmd := exec.Command(r.plz, args...)
-	cmd.Dir = r.root
-	cmd.Env = []string{"HOME=" + r.home, "XDG_CACHE_HOME=" + r.home + "/.cache", "XDG_CONFIG_HOME=" + r.home + "/.config",
-		"PATH=/usr/local/bin:/usr/bin:/bin", "LC_ALL=C", "GOMAXPROCS=2"}
-	done := make(chan struct{})
 	var b []byte
-	var err error
-	go func() { b, err = cmd.CombinedOutput(); close(done) }()
-	select {
-	case <-done:
-	case <-time.After(180 * time.Second):
-		cmd.Process.Kill()
-		<-done
-		return nil, nil, nil, 124, "timeout"
-	}
-	if err != nil {
-		rc = 1
-		if ee, ok := err.(*exec.ExitError); ok {
-			rc = ee.ExitCode()
+	for attempt := 0; ; attempt++ {
+		cmd := exec.Command(r.plz, args...)
+		cmd.Dir = r.root
+		cmd.Env = []string{"HOME=" + r.home, "XDG_CACHE_HOME=" + r.home + "/.cache", "XDG_CONFIG_HOME=" + r.home + "/.config",
+			"PATH=/usr/local/bin:/usr/bin:/bin", "LC_ALL=C", "GOMAXPROCS=2"}
+		done := make(chan struct{})
+		var err error
+		go func() { b, err = cmd.CombinedOutput(); close(done) }()
+		select {
+		case <-done:
+		case <-time.After(180 * time.Second):
+			cmd.Process.Kill()
+			<-done
+			return nil, nil, nil, 124, "timeout"
 		}
+		rc = 0
+		if err != nil {
+			rc = 1
+			ee, isExit := err.(*exec.ExitError)
+			if isExit {
+				rc = ee.ExitCode()
+			}
+			// the process could not be started, or was killed by a signal before it printed anything (a loaded
+			// machine: EAGAIN / OOM): nothing of the invocation is observable, run it again
+			if (!isExit || rc == -1) && len(b) == 0 && len(readLog(r.log)) == len(before) && attempt < 3 {
+				time.Sleep(time.Duration(attempt+1) * time.Second)
+				continue
+			}
+			if !isExit || rc == -1 {
+				b = append(b, []byte(" [exec: "+err.Error()+"]")...)
+			}
+		}
+		break
 	}
 	after := readLog(r.log)
 	for _, e := range after[len(before):] {
